@@ -32,7 +32,7 @@ def harness(ctx, M, K, rounds=None, swap=True, limits=None):
 
 def plan(tier):
     if tier == "quick":
-        combos = [(2, 1), (1, 2)]
+        combos = [(2, 1), (1, 2), (2, 2)]
     else:
         combos = [(2, 1), (2, 2), (3, 2), (1, 3)]
     specs = []
@@ -40,3 +40,19 @@ def plan(tier):
         specs.append(Spec(f"recover/M={m}/K={k}", "vf.harness.c03:harness", {"M": m, "K": k}, twin_share=0.02,
                           obligations=[f"faults_used={k}"]))
     return specs
+
+
+BOUNDS = {
+    "quick": "acknowledged mode, immediate and deferred NAK, closure on/off, CRC-32, widths (2,2); file of at most M segments with symbolic size and max packet length; every transmission in either direction gets a solver-forked fault (deliver / drop / duplicate / hold back behind the next PDU) and every round with PDUs in flight a possible timer expiry (delay fault) while the budget K lasts; all expiration limits = K+1; (M,K) = (2,1), (1,2), (2,2); after the budget the link is reliable and the clock advances whenever the system is quiescent; a run still busy after 14+10K+2M rounds is given ten times as long before it counts as stuck",
+    "thorough": "(M,K) = (2,1), (2,2), (3,2), (1,3)",
+}
+OUTSIDE = "more than K faults, more than M segments, reordering deeper than one position per fault, corruption (C01), unacknowledged mode"
+FUNCTIONS = c02.FUNCTIONS
+EXPLANATION = "Closed system as C02 with a fault decision per transmission charged to a budget; quiescence forces timer expiry."
+ASSUMPTIONS = c02.ASSUMPTIONS + ["every expiration limit is K+1", "a PDU refused by a handler's admission check is dropped by the entity and the handler is called again without packet"]
+MANIFEST = {
+    "technique": "bounded symbolic execution (z3) of the closed system real SourceHandler + real DestHandler with a solver-forked fault per transmission within budget K",
+    "design_ref": "DESIGN.md 7.3",
+    "level_text": "All fault schedules with at most K faults (drop, duplicate, reorder by one, early timer expiry; either direction; any PDU type) on files of at most M segments with symbolic size are executed on both real handlers; on every feasible path, once the link is quiet and timers keep expiring, both users must receive a successful Transaction-Finished indication, both handlers must be idle, no API call may raise and the destination file must equal the source at an arbitrary witness index.",
+    "level_note": "Trusted: z3, symex proxies/stubs (2% of passing and all failing paths re-run concretely), the harness's entity responder. Bounds: K faults, M segments.",
+}
